@@ -164,3 +164,10 @@ def shift_month(y, m, k):
     """(year, month) k months after (y, m)"""
     t = y * 12 + (m - 1) + k
     return (t // 12, t % 12 + 1)
+
+
+def nth_weekday_of_month(y, m, wd, c):
+    """ordinal of the c-th weekday wd (ISO 1 = Monday .. 7 = Sunday) of month (y, m); the last one when the month has no c-th"""
+    first = ordinal(y, m, 1)
+    o = first + (wd - 1 - weekday_of_ordinal(first)) % 7 + 7 * (c - 1)
+    return o if o < first + days_in_month(y, m) else o - 7
